@@ -408,3 +408,21 @@ Definition enc_dump (l : list (list bytes * N * bytes)) : list Z :=
 Definition dagree_case (rp : bytes) (s : fs) (t : fdt) (tr : list (call * resp)) : list Z :=
   let '(bad, n, lft, st) := dagree_trace rp {| ds := s; dt := t; dseen := [] |} tr 0 0 in
   [Z.of_N bad; Z.of_N n; Z.of_N lft] ++ enc_dump (dump (ds st)).
+
+(* tie T3: the model PROGRAM executed on the model KERNEL, for comparison with the library on the real kernel:
+   [code; x; y] ++ the final tree.  code 0: Ok (x = object behind a returned descriptor, or -1); 1: Err (x = kind, y = errno);
+   7: panic (x = site); 8: out of fuel *)
+Definition enc_ekind (e : ekind) : list Z :=
+  match e with
+  | OsError n => [1; Z.of_N n]%Z | OsErrorNone => [1; -1]%Z | InvalidArgument => [2; 22]%Z | SafetyViolation => [3; 18]%Z
+  | NotSupported => [4; 0]%Z | NotImplemented => [5; 38]%Z | InternalError => [6; 0]%Z
+  end.
+Definition enc_exec {A} (obj : dst -> A -> Z) (o : doutcome (result A ekind)) : list Z :=
+  match o with
+  | DDone st (Ok a) => [0; obj st a; 0]%Z ++ enc_dump (dump (ds st))
+  | DDone st (Err e) => (1 :: enc_ekind e)%Z ++ enc_dump (dump (ds st))
+  | DPanicked site => [7; Z.of_N site; 0]%Z
+  | DNoFuel => [8; 0; 0]%Z
+  end.
+Definition obj_of_fd (st : dst) (fd : Z) : Z := match tget (dt st) fd with Some o => Z.of_nat o | None => (-2)%Z end.
+Definition obj_none {A} (st : dst) (a : A) : Z := (-1)%Z.
